@@ -523,3 +523,66 @@ package actor
 //@   ensures  !old(deadFor(c, envelop)) && !old(foreignAtRoot(c, envelop)) ==> forall d *Context, t mathint :: gcount(selftold, d, t) == old(gcount(selftold, d, t))
 //@   ensures  !old(deadFor(c, envelop)) && !old(foreignAtRoot(c, envelop)) && !isCoreMessage(envMessage(envelop)) ==> ghost(calls_behavior) == old(ghost(calls_behavior)) + 1
 //@   ensures  !old(deadFor(c, envelop)) && !old(foreignAtRoot(c, envelop)) && !isCoreMessage(envMessage(envelop)) && !old(c.zombie) ==> c.envelop == envelop
+
+// ---------------------------------------------------------------------------------------------
+// C20: the per-actor scheduler's bookkeeping. The quartz scheduler is trusted; what it is asked to do is counted
+// per job-key object: schedtried(k) / scheduled(k) = Schedule attempts / successful ones, deleted(k) = DeleteJob.
+// jobKeys (reference -> job key) is what Exists / Cancel / Clear - and the clean-up when the actor dies - go by.
+//@ ghost schedtried(ptr)
+//@ ghost scheduled(ptr)
+//@ ghost deleted(ptr)
+//@ func (*scheduler.Scheduler).Schedule
+//@   trusted
+//@   ghostinc schedtried(jdkey(jobDetail))
+//@   ghostinc scheduled(jdkey(jobDetail)) when result == nil
+//@ func (*scheduler.Scheduler).DeleteJob
+//@   trusted
+//@   ghostinc deleted(jobKey)
+//@ pure schedwf(s *Scheduler) bool = s.ctx != nil && ctxwf(s.ctx) && s.scheduler != nil && s.jobKeys != nil &&
+//@     forall r string :: r in s.jobKeys ==> s.jobKeys[r] != nil
+
+//@ func uniqueJobKey
+//@   requires ctx != nil
+//@   ensures  result != nil && fresh(result)
+
+// a job is recorded under its reference exactly when the underlying scheduler accepted it; a refused job (e.g. a
+// reference that is already scheduled) is reported to the caller and leaves the bookkeeping alone
+//@ func (*Scheduler).scheduleJob
+//@   requires schedwf(s) && opts != nil && receiver != nil && (typeis(receiver, "*actor.Ref") ==> !nilptr(receiver))
+//@   modifies s.jobKeys[*], gmap(schedtried), gmap(scheduled)
+//@   ensures  result == nil ==> opts.Reference in s.jobKeys && s.jobKeys[opts.Reference] != nil && fresh(s.jobKeys[opts.Reference])
+//@   ensures  result == nil ==> forall k *quartz.JobKey :: k == s.jobKeys[opts.Reference] ==> gcount(scheduled, k) == old(gcount(scheduled, k)) + 1
+//@   ensures  result != nil ==> forall r string :: (r in s.jobKeys <==> old(r in s.jobKeys)) && s.jobKeys[r] == old(s.jobKeys[r])
+//@   ensures  forall r string :: r != opts.Reference ==> (r in s.jobKeys <==> old(r in s.jobKeys)) && s.jobKeys[r] == old(s.jobKeys[r])
+//@   ensures  forall k *quartz.JobKey :: allocated_old(k) ==> gcount(schedtried, k) == old(gcount(schedtried, k)) && gcount(scheduled, k) == old(gcount(scheduled, k))
+
+// conversion of the underlying scheduler's errors keeps nil-ness (table of matchers: trusted)
+//@ func schedulerErrorConvert
+//@   trusted
+//@   ensures (result == nil) == (err == nil)
+//@ func (*Scheduler).Exists
+//@   ensures result == (reference in s.jobKeys)
+
+// Cancel of an unknown reference is not-found and touches nothing; a known one is deleted from the underlying
+// scheduler (its own key, nobody else's) and forgotten
+//@ func (*Scheduler).Cancel
+//@   requires schedwf(s)
+//@   modifies s.jobKeys[*], gmap(deleted)
+//@   ensures  !old(reference in s.jobKeys) ==> result != nil && (forall k *quartz.JobKey :: gcount(deleted, k) == old(gcount(deleted, k))) &&
+//@            forall r string :: (r in s.jobKeys <==> old(r in s.jobKeys))
+//@   ensures  old(reference in s.jobKeys) ==> !(reference in s.jobKeys) && gcount(deleted, old(s.jobKeys[reference])) == old(gcount(deleted, s.jobKeys[reference])) + 1
+//@   ensures  old(reference in s.jobKeys) ==> forall k *quartz.JobKey :: k != old(s.jobKeys[reference]) ==> gcount(deleted, k) == old(gcount(deleted, k))
+//@   ensures  forall r string :: r != reference ==> (r in s.jobKeys <==> old(r in s.jobKeys)) && s.jobKeys[r] == old(s.jobKeys[r])
+
+// Clear (also run when the actor terminates or restarts): every recorded job is deleted, nothing stays recorded
+//@ func (*Scheduler).Clear
+//@   requires schedwf(s)
+//@   modifies s.jobKeys[*], gmap(deleted)
+//@   ensures  len(s.jobKeys) == 0
+//@   ensures  forall r string :: old(r in s.jobKeys) ==> gcount(deleted, old(s.jobKeys[r])) > old(gcount(deleted, s.jobKeys[r]))
+//@ loop (*Scheduler).Clear#1
+//@   modifies s.jobKeys[*], gmap(deleted)
+//@   invariant forall r string :: seen(r) ==> old(r in s.jobKeys) && !(r in s.jobKeys) && gcount(deleted, old(s.jobKeys[r])) > old(gcount(deleted, s.jobKeys[r]))
+//@   invariant forall r string :: !seen(r) ==> (r in s.jobKeys <==> old(r in s.jobKeys)) && s.jobKeys[r] == old(s.jobKeys[r])
+//@   invariant forall k *quartz.JobKey :: gcount(deleted, k) >= old(gcount(deleted, k))
+//@   invariant len(s.jobKeys) == old(len(s.jobKeys)) - seencount()
